@@ -89,6 +89,7 @@ func run(flags userFlags) error {
 		StubImpl:   flags.stubImpl,
 		SkipEnsure: flags.skipEnsure,
 		WithResets: flags.withResets,
+		OutFile:    flags.outFile,
 	})
 	if err != nil {
 		return err
